@@ -2793,6 +2793,110 @@ fn main() {
                                 Err(e) => format!("{{\"client\":\"{}\",\"sends_completed\":0,\"transfers_without_credit\":{},\"log\":{}}}", e, n, sp::json_list(&log)),
                             }
                         }
+                        // window_backlog: the peer begins with incoming-window 2; the client (connection buffer_size 4) sends ten
+                        //   pre-settled messages, eight of which are held back; after the second transfer the peer reopens its window
+                        //   to 100 in one flow, so that the whole backlog is released at once into a queue that cannot hold it. All
+                        //   ten transfers must arrive, in order.
+                        "window_backlog" => {
+                            use fe2o3_amqp_types::performatives::Flow;
+                            let mut seen = 0u32;
+                            let cfg = sp::PeerCfg { credit: None, ..Default::default() };
+                            let peer = tokio::spawn(sp::run(peer_io, sp::PeerCfg { credit: None, ..Default::default() }, move |f: &Frame, _log: &[String]| {
+                                let mut act = sp::Act::default();
+                                match &f.body {
+                                    FrameBody::Attach(a) => {
+                                        act.replies = sp::default_answers(f, &cfg).0;
+                                        act.replies.push(Frame::new(f.channel, FrameBody::Flow(Flow { next_incoming_id: Some(0), incoming_window: 2, next_outgoing_id: 0, outgoing_window: 2048, handle: Some(a.handle.clone()), delivery_count: Some(0), link_credit: Some(100), available: None, drain: false, echo: false, properties: None })));
+                                        act.handled = true;
+                                    }
+                                    FrameBody::Begin(b) => {
+                                        let mut b = b.clone();
+                                        b.remote_channel = Some(f.channel);
+                                        b.incoming_window = 2;
+                                        act.replies.push(Frame::new(f.channel, FrameBody::Begin(b)));
+                                        act.handled = true;
+                                    }
+                                    FrameBody::Transfer { .. } => {
+                                        seen += 1;
+                                        if seen == 2 {
+                                            // give the client time to queue the other eight behind the closed window
+                                            act.pause_ms = 300;
+                                            act.late_replies.push(Frame::new(f.channel, FrameBody::Flow(Flow { next_incoming_id: Some(2), incoming_window: 100, next_outgoing_id: 0, outgoing_window: 2048, handle: None, delivery_count: None, link_credit: None, available: None, drain: false, echo: false, properties: None })));
+                                        }
+                                    }
+                                    _ => {}
+                                }
+                                act
+                            }));
+                            let client = tokio::time::timeout(Duration::from_secs(10), async {
+                                let mut conn = fe2o3_amqp::Connection::builder().container_id("client").buffer_size(4).open_with_stream(client_io).await.map_err(|_| "open_failed")?;
+                                let mut session = fe2o3_amqp::Session::begin(&mut conn).await.map_err(|_| "begin_failed")?;
+                                let mut sender = fe2o3_amqp::Sender::attach(&mut session, "s-1", "q1").await.map_err(|_| "attach_failed")?;
+                                for k in 0..10 {
+                                    let m = fe2o3_amqp::Sendable::builder().message(format!("m{}", k)).settled(true).build();
+                                    let _ = tokio::time::timeout(Duration::from_secs(2), sender.send(m)).await.map_err(|_| "send_timeout")?;
+                                }
+                                tokio::time::sleep(Duration::from_millis(900)).await;
+                                let _ = tokio::time::timeout(Duration::from_secs(1), sender.close()).await;
+                                let _ = tokio::time::timeout(Duration::from_secs(1), session.end()).await;
+                                let _ = tokio::time::timeout(Duration::from_secs(1), conn.close()).await;
+                                Ok::<_, &'static str>("ok")
+                            })
+                            .await
+                            .unwrap_or(Err("hang"));
+                            let log = tokio::time::timeout(Duration::from_secs(2), peer).await.ok().and_then(|r| r.ok()).unwrap_or_default();
+                            let i_det = log.iter().position(|l| l.starts_with("detach:")).unwrap_or(log.len());
+                            let tails: Vec<String> = log[..i_det].iter().filter(|l| l.starts_with("transfer:")).filter_map(|l| l.rsplit(":tail").next().map(|x| x.to_string())).collect();
+                            let want: Vec<String> = (0..10u8).map(|k| format!("{}", b'0' + k)).collect();
+                            format!("{{\"client\":\"{}\",\"transfers_seen\":{},\"all_in_order\":{},\"log\":{}}}", client.unwrap_or_else(|e| e), tails.len(), tails == want, sp::json_list(&log))
+                        }
+                        // presettled_stream <n> <count>: the client is a Receiver with CreditMode::Auto(n) and auto_accept; the peer
+                        //   (sender) transfers <count> PRE-SETTLED single-frame deliveries, never beyond delivery-count + link-credit of
+                        //   the client's latest flow. All of them must arrive: the credit has to be re-issued as deliveries are processed.
+                        "presettled_stream" => {
+                            use fe2o3_amqp_types::performatives::Transfer;
+                            use fe2o3_amqp_types::primitives::Binary;
+                            let n = arg.first().copied().unwrap_or(4) as u32;
+                            let count = arg.get(1).copied().unwrap_or(14) as u32;
+                            let mut sent = 0u32;
+                            let peer = tokio::spawn(sp::run(peer_io, sp::PeerCfg::default(), move |f: &Frame, _log: &[String]| {
+                                let mut act = sp::Act::default();
+                                if let FrameBody::Flow(fl) = &f.body {
+                                    if let Some(h) = fl.handle.clone() {
+                                        let limit = fl.delivery_count.unwrap_or(0).wrapping_add(fl.link_credit.unwrap_or(0));
+                                        while sent < count && sent < limit {
+                                            let performative = Transfer { handle: h.clone(), delivery_id: Some(sent), delivery_tag: Some(Binary::from(sent.to_be_bytes().to_vec())), message_format: Some(0), settled: Some(true), more: false, rcv_settle_mode: None, state: None, resume: false, aborted: false, batchable: false };
+                                            act.replies.push(Frame::new(f.channel, FrameBody::Transfer { performative, payload: Bytes::from(vec![0x00, 0x53, 0x77, 0xa1, 0x02, b'm', b'0' + (sent % 10) as u8]) }));
+                                            sent += 1;
+                                        }
+                                    }
+                                }
+                                act
+                            }));
+                            let client = tokio::time::timeout(Duration::from_secs(12), async {
+                                let mut conn = fe2o3_amqp::Connection::builder().container_id("client").open_with_stream(client_io).await.map_err(|_| "open_failed")?;
+                                let mut session = fe2o3_amqp::Session::begin(&mut conn).await.map_err(|_| "begin_failed")?;
+                                let mut receiver = fe2o3_amqp::Receiver::builder().name("r-1").source("q1").credit_mode(fe2o3_amqp::link::receiver::CreditMode::Auto(n)).auto_accept(true).attach(&mut session).await.map_err(|_| "attach_failed")?;
+                                let mut delivered = 0u32;
+                                while delivered < count {
+                                    match tokio::time::timeout(Duration::from_millis(700), receiver.recv::<String>()).await {
+                                        Ok(Ok(_)) => delivered += 1,
+                                        _ => break,
+                                    }
+                                }
+                                let _ = tokio::time::timeout(Duration::from_secs(1), receiver.close()).await;
+                                let _ = tokio::time::timeout(Duration::from_secs(1), session.end()).await;
+                                let _ = tokio::time::timeout(Duration::from_secs(1), conn.close()).await;
+                                Ok::<_, &'static str>(delivered)
+                            })
+                            .await
+                            .unwrap_or(Err("hang"));
+                            let log = tokio::time::timeout(Duration::from_secs(2), peer).await.ok().and_then(|r| r.ok()).unwrap_or_default();
+                            match client {
+                                Ok(d) => format!("{{\"client\":\"ok\",\"delivered\":{},\"log\":{}}}", d, sp::json_list(&log)),
+                                Err(e) => format!("{{\"client\":\"{}\",\"delivered\":0,\"log\":{}}}", e, sp::json_list(&log)),
+                            }
+                        }
                         // link_split <pieces>: the peer's attach carries max-message-size 16; the client sends ONE message
                         //   whose payload is cut into <pieces> transfers by the link. All frames of the delivery must carry
                         //   the first frame's delivery-id or none, `more` on all but the last, and add up to the payload.
